@@ -353,7 +353,7 @@ pub fn generate_c15(run_seed: u64, thorough: bool, faults: bool) -> ListDesc {
         m.heap.new_list(inner_init[k].clone());
     }
     let script_ok = |op: &Op| -> bool { !matches!(op, Op::IterConsume { .. } | Op::IterWithPush { .. } | Op::InnerPush { .. } | Op::FromVec { .. } | Op::CloneH { .. } | Op::DropH { .. } | Op::ToVec { .. } | Op::Iter { .. } | Op::Debug { .. }) };
-    let rust_ok = |op: &Op| -> bool { !matches!(op, Op::GetMove { .. } | Op::TmpGet { .. } | Op::BranchLit { .. } | Op::Lit9 { .. } | Op::Join { .. } | Op::ForCount { .. } | Op::ForSum { .. } | Op::ForPush { .. } | Op::ForFind { .. }) };
+    let rust_ok = |op: &Op| -> bool { !matches!(op, Op::ForRebind { .. } | Op::PlusAssign { .. } | Op::GetMove { .. } | Op::TmpGet { .. } | Op::BranchLit { .. } | Op::Lit9 { .. } | Op::Join { .. } | Op::ForCount { .. } | Op::ForSum { .. } | Op::ForPush { .. } | Op::ForFind { .. }) };
     for _ in 0..nops {
         let filled: Vec<usize> = (0..nslots).filter(|&s| m.slots[s].is_some()).collect();
         let any = |g: &mut Gen| g.r.below(nslots as u64) as usize;
@@ -391,7 +391,7 @@ pub fn generate_c15(run_seed: u64, thorough: bool, faults: bool) -> ListDesc {
                     _ => g.r.below(len + 2),
                 }
             };
-            match g.r.weighted(&[22, 12, 3, 2, 2, 6, 5, 4, 8, 7, 5, 3, 2, 3, 4, 3, 3, 3, 3, 4, 3, 3, 3, 2]) {
+            match g.r.weighted(&[22, 12, 3, 2, 2, 6, 5, 4, 8, 7, 5, 3, 2, 3, 4, 3, 3, 3, 3, 4, 3, 3, 3, 2, 2, 3]) {
                 0 => Op::Push { h, v: fresh(&mut g) },
                 1 => Op::Get { h, i: idx(&mut g) },
                 2 => Op::Len { h },
@@ -432,11 +432,17 @@ pub fn generate_c15(run_seed: u64, thorough: bool, faults: bool) -> ListDesc {
                 18 => Op::Concat { a: h, b: h, dst: Some(any(&mut g)), plus: false },
                 20 => Op::TmpGet { vals: (0..2).map(|_| fresh(&mut g)).collect(), i: g.r.below(3) },
                 23 => Op::GetMove { h, i: idx(&mut g) },
+                24 => Op::ForRebind { h },
+                25 => {
+                    let b = *g.r.pick(&filled);
+                    let tot = len + m.heap.lists[m.slots[b].unwrap()].len() as u64;
+                    if tot > 40 { Op::Len { h } } else { Op::PlusAssign { a: h, b, dst: any(&mut g) } }
+                }
                 22 => {
                     // prefer an alias slot that holds the same list
                     let same: Vec<usize> = (0..nslots).filter(|&s| s != h && m.slots[s] == m.slots[h]).collect();
                     let alias = if !same.is_empty() && g.r.chance(3, 4) { *g.r.pick(&same) } else { any(&mut g) };
-                    if alias == h { Op::Len { h } } else { Op::IterConsume { h, alias, k: g.r.below(len + 2) } }
+                    if alias == h { Op::Len { h } } else { Op::IterConsume { h, alias, k: g.r.below(len + 2), partial: g.r.chance(1, 2) } }
                 }
                 21 => {
                     if len > 30 { Op::Len { h } } else { Op::IterWithPush { h, k: g.r.below(len + 2), v: fresh(&mut g) } }
@@ -545,6 +551,8 @@ pub fn op_label(op: &Op, origin: &Origin) -> String {
         Op::TmpGet { .. } => "get-on-temporary",
         Op::IterConsume { .. } => "consuming-into_iter",
         Op::GetMove { .. } => "get-moving-handle",
+        Op::ForRebind { .. } => "for-rebinding-list",
+        Op::PlusAssign { .. } => "+=",
         Op::IterWithPush { .. } => "into_iter-with-push",
         Op::CloneH { .. } => "clone",
         Op::DropH { .. } => "drop",
@@ -986,7 +994,7 @@ pub fn shrink(d: &ListDesc) -> Vec<ListDesc> {
     for t in 0..d.threads.len() {
         for k in 0..d.threads[t].ops.len() {
             let (op, origin) = &d.threads[t].ops[k];
-            if *origin == Origin::Script && !matches!(op, Op::Join { .. } | Op::ForCount { .. } | Op::ForSum { .. } | Op::ForPush { .. } | Op::ForFind { .. } | Op::Concat { plus: true, .. } | Op::Eq { ne: true, .. } | Op::Lit3 { .. } | Op::Lit9 { .. } | Op::BranchLit { .. } | Op::TmpGet { .. } | Op::GetMove { .. }) {
+            if *origin == Origin::Script && !matches!(op, Op::Join { .. } | Op::ForCount { .. } | Op::ForSum { .. } | Op::ForPush { .. } | Op::ForFind { .. } | Op::Concat { plus: true, .. } | Op::Eq { ne: true, .. } | Op::Lit3 { .. } | Op::Lit9 { .. } | Op::BranchLit { .. } | Op::TmpGet { .. } | Op::GetMove { .. } | Op::ForRebind { .. } | Op::PlusAssign { .. }) {
                 let mut c = d.clone();
                 c.threads[t].ops[k].1 = Origin::Rust;
                 out.push(c);
